@@ -95,6 +95,10 @@ OBLIGATIONS.append(dict(name="unpack_tree_syscall_failure_nl1", harness="harness
     tiers=["quick", "thorough"], timeout=600, reach=["create_failed", "attrib_failed", "all_ok"],
     functions=["restore_fstree, create_node_dfs, create_node, update_tree_attribs, set_attribs (bin/rdsquashfs/src/restore_fstree.c)"],
     bound="tree root -> A -> B with 1-byte symbolic names, all inode types, unpack flags symbolic; mkdir/symlink/mknod/open/utimensat/fchownat/fchmodat may each fail"))
+OBLIGATIONS.append(dict(name="rdsquashfs_exit_protocol", harness="harness/C13_rdsquashfs.c", sources=[], included_sources=["bin/rdsquashfs/src/rdsquashfs.c"],
+    incdirs=["bin/rdsquashfs/src"], unwind=10, unwindset={"tree_sort": 1, "list_sort": 1, "list_sort.0": 2, "tree_sort.0": 2, "tree_sort.1": 2}, tiers=["quick", "thorough"], timeout=300, fp_map={"destroy": ["destroy_stub"]}, reach=["success", "failure"],
+    functions=["main (bin/rdsquashfs/src/rdsquashfs.c)"],
+    bound="operation symbolic (list, cat, unpack, describe, xattr dump, stat, none), image with or without xattrs, every step of set-up and operation may fail, up to 3 splices for cat"))
 FPIO = {'read_at': ['vp_file_read_at'], 'write_at': ['vp_file_write_at'], 'truncate': ['vp_file_truncate'], 'get_size': ['vp_file_get_size'], 'do_block': ['cw_do_block', 'vp_cmp_do_block']}
 OBLIGATIONS.append(dict(name="blockwriter_io_failure_h1_nb1", harness="harness/C08_blockwriter.c", sources=["lib/util/src/file_cmp.c", "lib/util/src/array.c"],
     included_sources=["lib/sqfs/src/block_writer.c"], defines=dict(H=1, NB=1, SZ=2, MODE=3), unwind=10, tiers=["quick", "thorough"], timeout=300, fp_map=FPIO,
